@@ -46,6 +46,8 @@ class Check:
         self.extra = {}
         self.conformance_runs = 0
         self.known = load_known(prop)
+        self.structural_fail = []       # (name, detail) of failed shape obligations, resolved in finish()
+        self.native_witness = None      # failing inputs found by the check's bounded native run, if any
         self.replay_dir = os.path.join(VERIF, 'replays' if os.environ.get('VERIF_REPO', '/repo') == '/repo' else '.scratch_replays', prop)
         if os.path.isdir(self.replay_dir) and not os.environ.get('VERIF_KEEP_REPLAYS'):
             for f in os.listdir(self.replay_dir):          # replay files describe THIS run only
@@ -103,6 +105,13 @@ class Check:
 
     # ------------------------------------------------------------------ finish
     def finish(self, explanation=None, checker_cmd=None):
+        for name, detail in self.structural_fail:
+            if self.native_witness:
+                self.violation(name, {'witness': detail, 'native_witness': self.native_witness[:3],
+                                      'solver': 'structural obligation on the real source failed; concrete failing input from the bounded native run'}, True)
+            else:
+                self.undecide('%s -- the source no longer has the shape this obligation was written for and the bounded run found no '
+                              'failing input: the contract must be re-derived (%s)' % (name, str(detail)[:200]))
         wall = time.time() - self.t0
         cov = {
             'obligations': self.obligations,
